@@ -20,6 +20,12 @@ PUBLIC API and the library's forward chain + error_estimate is evaluated at the 
   SOURCE   (round 4) harness/c02_tie.py translates the index / cache / shape / target-selection / detector logic of the CURRENT
            source and re-proves on every run that it equals the model (coq/gen_proofs/C02_Gen*.v).
 
+  MODES    (round 6) the ORDER and relative strength of the incoherent modes as the caller hands them to the public probe setter
+           (gen_mode_order): strongest first / weakest first / unsorted, nearly equal weights, weights far apart, with the
+           orthogonalisation constraint on (mutually orthogonal reference modes: the constraint may only re-order them) and off.
+           The forward model is a SUM over the modes (theorem C02_mode_order_irrelevant): the losses must be ~0 for every order;
+           the per-step tie matches library modes to reference modes (or compares the mode density operator), never by position.
+
 Families (round 3): main (even ROI, no_shift; steps below one pixel, large padding, non-square objects),
 odd (odd ROI sizes, no_shift — claimed since fixes/C02-no-shift-odd-roi.diff), half (scan positions on EXACT
 half-integers, simulated in the library frame with the round-half-to-even anchor of C02_round_tie), line
@@ -433,6 +439,69 @@ def gen_history(rh: random.Random, c: dict, k: int = 99) -> dict:
     return h
 
 
+MODE_ORDER_KINDS = ["ascending", "unsorted", "nearly-equal", "far-apart", "descending"]
+
+
+def gen_mode_order(rm: random.Random, c: dict, k: int = 99) -> None:
+    """the incoherent modes as the CALLER hands them over: the property quantifies over "1..3 incoherent modes installed
+    through the public probe setter" - in any order and with any relative strength.  Rewrites c["weights"] (mode i of the
+    reference probe = aperture x (1, k_r, k_c)[i] keeps its shape; its weight changes) and c["orthogonalize"]:
+      descending / ascending / unsorted   moderate weights (successive ratios 0.25 .. 0.9) in that order
+      nearly-equal                        weights within 1e-4 .. 2 % of each other, any order
+      far-apart                           successive ratios 1e-3 .. 0.08, any order (a mode of < 1 % of the intensity)
+    k = running index of the multi-mode cases of the run: the first ones cycle through kind x constraint on / off."""
+    nm = c["modes"]
+    if nm < 2:
+        c["mode_order"] = "single"
+        return
+    if k < 2 * len(MODE_ORDER_KINDS):
+        kind, orth = MODE_ORDER_KINDS[k % len(MODE_ORDER_KINDS)], (k // len(MODE_ORDER_KINDS)) % 2 == 0
+    else:
+        kind, orth = rm.choice(MODE_ORDER_KINDS), rm.random() < 0.6
+    if kind == "nearly-equal":
+        w = [1.0 + rm.choice([-1, 1]) * 10 ** rm.uniform(-4, -1.7) for _ in range(nm)]
+        rm.shuffle(w)
+    elif kind == "far-apart":
+        w = [1.0]
+        for _ in range(nm - 1):
+            w.append(w[-1] * 10 ** rm.uniform(-3, -1.1))
+        rm.shuffle(w)
+    else:
+        w = [1.0]
+        for _ in range(nm - 1):
+            w.append(w[-1] * rm.uniform(0.25, 0.9))
+        if kind == "ascending":
+            w = w[::-1]
+        elif kind == "unsorted":
+            while True:
+                rm.shuffle(w)
+                if w != sorted(w, reverse=True) and (nm == 2 or w != sorted(w)):
+                    break
+    c["weights"] = [x / sum(w) for x in w]
+    c["mode_order"] = kind
+    # an overfilling aperture has non-orthogonal reference modes (see gen_case): the constraint stays off there
+    c["orthogonalize"] = bool(orth) and not c.get("overfill")
+
+
+def mode_order_class(c):
+    """(order, strength) of the weights as handed over - measured on the weights, not on the generator's label"""
+    w = list(c["weights"])
+    if len(w) < 2:
+        return "single mode", "single mode"
+    order = "strongest first" if w == sorted(w, reverse=True) else "weakest first" if w == sorted(w) else "unsorted"
+    sw = sorted(w, reverse=True)
+    gaps = [sw[i + 1] / sw[i] for i in range(len(sw) - 1)]
+    strength = "nearly equal (within 2 %)" if min(gaps) > 0.96 else "far apart (a ratio < 0.08)" if min(gaps) < 0.08 else "moderate"
+    return order, strength
+
+
+def _probe_text(c):
+    if c["modes"] < 2:
+        return ""
+    return "; probe modes handed to the public setter with weights %s (%s), orthogonalize_probe=%s" % (
+        [float("%.5g" % x) for x in c["weights"]], mode_order_class(c)[0], c["orthogonalize"])
+
+
 def history_signature(c):
     h = c.get("history")
     if not h:
@@ -463,7 +532,8 @@ def batch_size_for(c, npos):
 
 def case_key(c):
     return (c["family"], tuple(c["roi"]), tuple(c["gpts"]), c["kind"], c["slices"], c["modes"], tuple(c["pad"]),
-            tuple(round(s, 3) for s in c["step_px"]), c["com"], tuple(c["descan"])) + history_signature(c)
+            tuple(round(s, 3) for s in c["step_px"]), c["com"], tuple(c["descan"]), mode_order_class(c)[0],
+            bool(c["orthogonalize"])) + history_signature(c)
 
 
 # the "strictly larger at a perturbed probe" clause is judged only where the reference simulator says the
@@ -507,11 +577,42 @@ def _rel_mod_phase(a, b):
     return float(np.linalg.norm(a - z * b) / max(np.linalg.norm(b), 1e-300))
 
 
-def step_observables(pt, steps, data, offi):
+def _mode_match(lib, ref):
+    """max over the modes of the phase-gauged relative difference, minimised over the ASSIGNMENT of library modes to
+    reference modes: the forward model is a sum over the modes, their order is not observable (and the library's
+    orthogonalisation constraint legitimately re-orders them)"""
+    from itertools import permutations
+    nm = lib.shape[0]
+    d = [[_rel_mod_phase(lib[i], ref[j]) for j in range(nm)] for i in range(nm)]
+    return min(max(d[i][p[i]] for i in range(nm)) for p in permutations(range(nm)))
+
+
+def _density_distance(lib, ref):
+    """|| rho_lib - rho_ref ||_F / || rho_ref ||_F for rho = sum_m |psi_m><psi_m| (through the Gram matrices of the
+    modes): invariant under re-ordering, per-mode phases and a unitary mixing of (nearly) degenerate modes - everything
+    the incoherent sum cannot see"""
+    a = np.asarray(lib, dtype=np.complex128).reshape(lib.shape[0], -1)
+    b = np.asarray(ref, dtype=np.complex128).reshape(ref.shape[0], -1)
+    saa = float((np.abs(a.conj() @ a.T) ** 2).sum())
+    sbb = float((np.abs(b.conj() @ b.T) ** 2).sum())
+    sab = float((np.abs(a.conj() @ b.T) ** 2).sum())
+    return math.sqrt(max(0.0, saa + sbb - 2.0 * sab) / max(sbb, 1e-300))
+
+
+def mode_distance(lib, ref, weights):
+    """library modes vs reference modes without assuming an order: matched mode by mode where the weights tell the modes
+    apart (relative gap > 4 %), else through the mode density operator"""
+    sw = sorted(weights, reverse=True)
+    if len(sw) > 1 and min(sw[i + 1] / sw[i] for i in range(len(sw) - 1)) > 0.96:
+        return _density_distance(lib, ref)
+    return _mode_match(lib, ref)
+
+
+def step_observables(pt, steps, data, offi, weights=(1.0,)):
     """per-step tie between the library's chain and the reference simulator, for the sampled positions: the
     window anchor, the gathered object patches, the placed (sub-pixel shifted) probe, the exit wave and the
     detector prediction (against the simulated, not yet preprocessed, pattern).  Waves are compared up to
-    one global phase per mode and position."""
+    one global phase per mode and position and up to the order of the modes (mode_distance)."""
     idx = sorted(steps)
     bi = np.asarray(idx)
     patch_indices, pos, frac, descan = pt.dset.forward(bi, pt.obj_padding_px)
@@ -533,9 +634,8 @@ def step_observables(pt, steps, data, offi):
         want = (np.asarray(st["anchor"]) + offi) % shp
         out["anchor"] = max(out["anchor"], int(np.abs(lib_anchor - want).max()))
         out["patches"] = max(out["patches"], float(np.abs(patches[:, b] - st["windows"]).max()))
-        for mi in range(shifted.shape[0]):
-            out["placed_probe"] = max(out["placed_probe"], _rel_mod_phase(shifted[mi, b], st["placed_probe"][mi]))
-            out["exit_wave"] = max(out["exit_wave"], _rel_mod_phase(overlap[mi, b], st["exit_wave"][mi]))
+        out["placed_probe"] = max(out["placed_probe"], mode_distance(shifted[:, b], st["placed_probe"], weights))
+        out["exit_wave"] = max(out["exit_wave"], mode_distance(overlap[:, b], st["exit_wave"], weights))
         out["detector"] = max(out["detector"], float(np.abs(pred[b] - data[i]).sum() / max(data[i].sum(), 1e-300)))
     return out
 
@@ -642,7 +742,7 @@ def run_case(c: dict, want_arrays=False) -> CaseResult:
         # losses selected (public call) before the first evaluation
         pt.reconstruct(num_iters=0, loss_type=lt, constraints={"probe": {"orthogonalize_probe": bool(c["orthogonalize"])}})
     l_gt, pred = lib_forward_multi(pt, allidx, order)
-    res["steps"] = step_observables(pt, steps, data0, offi if anchor != "half_even" else np.zeros(2, int))
+    res["steps"] = step_observables(pt, steps, data0, offi if anchor != "half_even" else np.zeros(2, int), c["weights"])
     with _Saved(pt):
         set_obj(pt, pobj_lib, c["kind"])
         l_po, _ = lib_forward_multi(pt, allidx, order)
@@ -715,7 +815,7 @@ def oracle(res: CaseResult, claim_zero=True):
                             "[%s, %d slice(s), %d mode(s), roi %s, scan %s step %s px, padding %s -> object %s, %s]" % (
                                 lt, v["gt"], v["pert_obj"], v["pert_probe"], v["gt"] / max(ref, 1e-300), zr[lt],
                                 c["kind"], c["slices"], c["modes"], c["roi"], c["gpts"], [round(s, 3) for s in c["step_px"]],
-                                c["pad"], res["obj_shape"], c["com"]) + _history_text(c, res)))
+                                c["pad"], res["obj_shape"], c["com"]) + _probe_text(c) + _history_text(c, res)))
             if "losses_repeat" in res and not (res["losses_repeat"][lt] <= zr[lt] * ref):
                 bad.append(("loss-not-zero-at-ground-truth-on-repeat/%s" % lt,
                             "%s evaluated AGAIN at the ground truth (after the perturbed evaluations and one reconstruct() epoch on "
@@ -733,7 +833,7 @@ def oracle(res: CaseResult, claim_zero=True):
                             "pipeline step `%s`: library and reference simulator differ by %.4g (tolerance %.1g) at scan positions %s "
                             "[%s, %d slice(s), %d mode(s), roi %s, scan %s step %s px, padding %s -> object %s, %s]" % (
                                 name, st[name], STEP_TOL[name], st["positions"], c["kind"], c["slices"], c["modes"], c["roi"],
-                                c["gpts"], [round(s_, 3) for s_ in c["step_px"]], c["pad"], res["obj_shape"], c["com"])))
+                                c["gpts"], [round(s_, 3) for s_ in c["step_px"]], c["pad"], res["obj_shape"], c["com"]) + _probe_text(c)))
     if claim_zero and "norm_path" in res:
         if abs(res["norm_probe_intensity"] / res["mean_intensity"] - 1) > 1e-4:
             bad.append(("probe-normalisation", "after set_initial_probe the total probe intensity is %.8g, the mean diffraction "
@@ -755,11 +855,11 @@ def oracle(res: CaseResult, claim_zero=True):
         if not (rc["loss"] <= zr[lt] * rc["loss_pert"] * 3):
             bad.append(("reconstruct-loop-loss-not-zero/%s" % lt,
                         "one epoch of reconstruct() at the ground truth reports %s = %.6g (perturbed object: %.6g)" % (
-                            lt, rc["loss"], rc["loss_pert"])))
+                            lt, rc["loss"], rc["loss_pert"]) + _probe_text(c)))
         if "l2" in lt and not (rc["grad_obj"] <= 2e-2 * rc["grad_obj_pert"]):
             bad.append(("ground-truth-not-stationary/%s" % lt,
                         "object gradient of %s at the ground truth %.4g is not small against %.4g at the perturbed object" % (
-                            lt, rc["grad_obj"], rc["grad_obj_pert"])))
+                            lt, rc["grad_obj"], rc["grad_obj_pert"]) + _probe_text(c)))
     return bad
 
 
@@ -943,6 +1043,8 @@ def _summary(res):
     return {"family": c["family"], "roi": c["roi"], "scan": c["gpts"], "step_px": [round(s, 4) for s in c["step_px"]],
             "padding_requested": c["pad"], "padding_effective": res.get("pad_eff"), "object_shape": res.get("obj_shape"),
             "object_type": c["kind"], "slices": c["slices"], "modes": c["modes"], "com_fit_function": c["com"],
+            "mode_weights_as_handed_over": [float("%.6g" % x) for x in c["weights"]], "mode_order": mode_order_class(c)[0],
+            "orthogonalize_probe": c["orthogonalize"],
             "injected_descan_px": c["descan"], "position_offset_px": res.get("offset"),
             "batch_size": res.get("batch", {}).get("l2_amplitude", {}).get("batch"),
             "exact_half_integer_coordinates": res.get("exact_ties"),
@@ -988,7 +1090,11 @@ def run(ctx: Ctx):
         "transpose, bilinear, padding, looped CoM), the same Ptychography object is preprocessed with another or the same padding and "
         "reconstruct(num_iters=0, loss_type) is called 0-2 times, the four losses are evaluated in a permuted order (the first loss cycles "
         "through the four types in the first 8 cases of a family) and again at the end in another order; shares are in the distribution "
-        "under history/...  An earlier call that raises is recorded and skipped." % COM_PRECONDITION)
+        "under history/...  An earlier call that raises is recorded and skipped. MODES (every generated case with >= 2 modes; "
+        "sub-stream of the case seed): the weights are handed to the public probe setter strongest first / weakest first / unsorted, "
+        "with moderate ratios, within 2 %% of each other, or with ratios down to 1e-3, and the orthogonalisation constraint is on or "
+        "off; the first 10 multi-mode cases of a run cycle through (order kind x constraint on / off); shares under mode_order/, "
+        "mode_strength/, mode_order_x_constraint/." % COM_PRECONDITION)
     ctx.assumptions += [
         "numpy.fft / torch.fft compute the DFT (oracle contract; both the simulator's propagation/detector and the library use it)",
         "the independent simulator harness/c02_sim.py states the physics convention (transmission exp(+iV), Fresnel propagator "
@@ -1069,8 +1175,12 @@ def run(ctx: Ctx):
                 # what was done to the same dataset / ptychography object before (sub-stream of the case seed: the
                 # experiments of a given VERIF_SEED are the ones of the earlier rounds)
                 c["history"] = gen_history(random.Random(c["seed"] + 101), c, k)
+                # the order / relative strength of the modes as the caller hands them over (sub-stream of the case seed)
+                gen_mode_order(random.Random(c["seed"] + 211), c, multi_mode[0])
+                multi_mode[0] += c["modes"] > 1
                 yield family, c
 
+    multi_mode = [0]
     frozen = False
     for family, c in stream():
         keep = corr_used.get(family, 0) < corr_quota.get(family, 0)
@@ -1114,6 +1224,11 @@ def run(ctx: Ctx):
         ctx.dist("batch_size/%s" % ("one" if bsz == 1 and npos > 1 else "whole scan" if bsz == npos else
                                     "divides" if npos % bsz == 0 else "non-dividing"))
         ctx.dist("orthogonalize_probe/%s" % c["orthogonalize"])
+        mo, ms = mode_order_class(c)
+        ctx.dist("mode_order/%s" % mo)
+        ctx.dist("mode_strength/%s" % ms)
+        if c["modes"] > 1:
+            ctx.dist("mode_order_x_constraint/%s, orthogonalize_probe %s" % (mo, "on" if c["orthogonalize"] else "off"))
         h_ = c.get("history")
         if not h_:
             ctx.dist("history/none recorded (corpus case: fresh objects, fixed loss order)")
